@@ -22,6 +22,8 @@ def run(ctx):
         rule_P5(ctx, cls.name, r, obj)
         rule_P7(ctx, cls, w, r)
         rule_P9(ctx, r, obj)
+        from ..persist import rule_P12
+        rule_P12(ctx, r, obj)
         rule_P10(ctx, cls, r, obj)
         if u is not None:
             rule_P4_bound(ctx, cls)
